@@ -81,7 +81,8 @@ def run():
     c.rule = ("boundary and seeded code points (0, 0x7F, 0xD7FF, 0xD800..0xDFFF, 0xE000, 0xFFFF, 0x10FFFF, 0x110000, 2^31-49, saturating digit strings) through every entry point: "
               "DECFRA fill character through five ANSI-family emulations (cells recorded in full projection and judged CellsScalar by Trace_Term; a worker abort on an invalid char is a C10 "
               "violation), all 65536 16-bit clipboard cell values, PSF2 glyph tables around 0xD800 glyphs, IcyDraw character fields patched in the first and the continuation chunk, IcyDraw "
-              "title / font-name bytes (overlong, truncated, surrogate, 0xFF); strings judged well-formed UTF-8 by Utf8.tla. R1: MC_Utf8 (definitions agree), MC_Term Sane (model cells scalar).")
+              "title / font-name bytes (overlong, truncated, surrogate, 0xFF), DECDMAC macro bodies in text and hex form with bytes >= 0x80 and repeat groups reaching / crossing the 32767-byte macro space at every alignment "
+              "(bodies read through the cfg hook verif_macro_bytes); strings judged well-formed UTF-8 by Utf8.tla (long strings: excerpt + std::str::from_utf8 verdict). R1: MC_Utf8 (definitions agree), MC_Term Sane (model cells scalar).")
     c.assumptions = ["numeric values of cells and bytes of strings are read after the fact; constructing an invalid char is UB, so observation is reliable in practice only (dev profile: UB checks abort)"]
     return c.finish()
 
